@@ -39,6 +39,9 @@ pub struct Task {
 
 #[derive(Clone, Debug, PartialEq, Eq, Hash, Serialize, Deserialize, Default)]
 pub struct FutCase {
+    /// the counter is accessed with Relaxed instead of SeqCst: the wake-up itself must order the bump before the re-poll
+    #[serde(default)]
+    pub relaxed: bool,
     pub atomic_waker: bool,
     pub tasks: Vec<Task>,
 }
@@ -53,7 +56,7 @@ impl FutCase {
                 format!("task(order={}, need={}, spawn_in_poll={}, wakers={})", t.order, t.need, t.spawn_in_poll, w.join(" | "))
             })
             .collect();
-        format!("futures[{}] {}", if self.atomic_waker { "AtomicWaker" } else { "cx.waker clones" }, t.join(" ; "))
+        format!("futures[{}{}] {}", if self.atomic_waker { "AtomicWaker" } else { "cx.waker clones" }, if self.relaxed { ", relaxed counter" } else { "" }, t.join(" ; "))
     }
 }
 
@@ -87,7 +90,8 @@ pub fn build(draws: &[u16], _tier: Tier) -> Case {
         });
     }
     let mut c = Case::new("C20", if atomic_waker { "atomic-waker" } else { "waker-clone" }, Default::default());
-    c.x.fut = Some(FutCase { atomic_waker, tasks });
+    let relaxed = s.chance(1, 2);
+    c.x.fut = Some(FutCase { relaxed, atomic_waker, tasks });
     c.cfg.max_permutations = Some(30_000);
     // two tasks or two waking threads: the full exploration exceeds the iteration cap; explore with a
     // preemption bound instead and check only what holds for a subset of the executions
@@ -106,7 +110,7 @@ type Outcome = Vec<u8>; // polls per task
 
 fn run_loom(fc: &FutCase, cfg: &crate::dsl::Config) -> (BTreeSet<Outcome>, Option<String>, usize, bool) {
     use loom::future::{block_on, AtomicWaker};
-    use loom::sync::atomic::{AtomicUsize, Ordering::SeqCst};
+    use loom::sync::atomic::{AtomicUsize, Ordering};
     use loom::sync::Arc;
     use std::sync::{Arc as SArc, Mutex as SMutex};
     use std::task::{Context, Poll, Waker};
@@ -124,6 +128,7 @@ fn run_loom(fc: &FutCase, cfg: &crate::dsl::Config) -> (BTreeSet<Outcome>, Optio
     b.location = false;
     b.log = false;
     let fc = fc.clone();
+    let ord = if fc.relaxed { Ordering::Relaxed } else { Ordering::SeqCst };
     let (o2, i2) = (outcomes.clone(), iters.clone());
     let r = std::panic::catch_unwind(std::panic::AssertUnwindSafe(|| {
         b.check(move || {
@@ -147,7 +152,7 @@ fn run_loom(fc: &FutCase, cfg: &crate::dsl::Config) -> (BTreeSet<Outcome>, Optio
                             for op in ops2 {
                                 match op {
                                     WOp::Bump => {
-                                        c2.fetch_add(1, SeqCst);
+                                        c2.fetch_add(1, ord);
                                     }
                                     WOp::Wake => {
                                         if is_aw_mode {
@@ -189,12 +194,12 @@ fn run_loom(fc: &FutCase, cfg: &crate::dsl::Config) -> (BTreeSet<Outcome>, Optio
                     if is_aw && order == 0 {
                         aw.register_by_ref(cx.waker());
                     }
-                    if counter.load(SeqCst) >= need {
+                    if counter.load(ord) >= need {
                         return Poll::Ready(());
                     }
                     if is_aw && order != 0 {
                         aw.register_by_ref(cx.waker());
-                        if order == 2 && counter.load(SeqCst) >= need {
+                        if order == 2 && counter.load(ord) >= need {
                             return Poll::Ready(());
                         }
                     }
@@ -453,6 +458,9 @@ pub fn eval(case: &Case) -> Verdict {
     v.label(&format!("tasks{}", fc.tasks.len()));
     if deadlock {
         v.label("deadlock_reachable");
+    }
+    if fc.relaxed {
+        v.label("relaxed_counter");
     }
     if fc.tasks.iter().any(|t| t.order == 1) {
         v.label("check_then_register");
